@@ -84,7 +84,52 @@ CATALOGUE = [
     "enum Ee:\n  AA = 1\nstruct Foo:\n  0 [+1]  Ee  e\n  e [+1]  UInt  x\n",
     "struct Foo:\n  0 [+1]  Flag:2  f\n",
     "struct Foo:\n  0 [+4]  UInt:16  f\n",
+    # shapes behind defects found after the first build (zero width referenced, forward-referenced ill-typed let, ...)
+    "struct Foo:\n  0 [+0]  UInt  x\n  let y = x\n",
+    "bits Foo:\n  0 [+0]  Int  x\n  if x == 0:\n    1 [+1]  Flag  f\n",
+    "struct Foo(p: Int:0):\n  0 [+1]  UInt  x\n",
+    "struct Foo:\n  0 [+- 2]  UInt  x\n  let y = x\n",
+    "struct Foo:\n  0 [+1]  UInt  x\n  1 [+1]  bits:\n    0 [+1]  Flag  flag\n  let a = b + 1\n  let b = x + flag\n",
+    "struct Early:\n  0 [+1]  UInt  e\n  let early = Foo.bad\nstruct Foo:\n  0 [+1]  UInt  x\n  let bad = x + true\n",
+    "struct Foo(class: UInt:8):\n  0 [+1]  UInt  x\n",
+    "struct Foo:\n  0 [+2]  bits:\n    0 [+8]  UInt  x\n",
+    "struct Foo:\n  0 [+2]  struct  foo:\n    0 [+1]  bits:\n      0 [+4]  UInt  a\n    1 [+1]  UInt  b\n",
 ]
+
+
+def nestings(depth):
+    """Every nesting of the inline constructs (anonymous bits, inline enum/bits/struct, conditionals) to `depth`."""
+    counter = [0]
+
+    def fresh(prefix):
+        counter[0] += 1
+        return "%s%d" % (prefix, counter[0])
+
+    def items(kind, d, ind):
+        unit = 1 if kind == "struct" else 4
+        plain = ["%s0 [+%d]  UInt  %s" % (ind, unit, fresh("f"))]
+        out = [plain]
+        if d == 0:
+            return out
+        kids_bits = items("bits", d - 1, ind + "    ") if d > 0 else []
+        kids_struct = items("struct", d - 1, ind + "    ") if d > 0 else []
+        for body in kids_bits:
+            out.append(["%s0 [+%d]  bits:" % (ind, unit)] + body)
+            out.append(["%s0 [+%d]  bits  %s:" % (ind, unit, fresh("ib"))] + body)
+            out.append(["%sif true:" % ind, "%s  0 [+%d]  bits:" % (ind, unit)] + ["  " + l for l in body])
+        out.append(["%s0 [+%d]  enum  %s:" % (ind, unit, fresh("en")), "%s    AA = 1" % ind])
+        out.append(["%s0 [+%d]  enum  %s:" % (ind, unit, fresh("en")), "%s    [maximum_bits: %d]" % (ind, 8 if kind == "struct" else 4), "%s    AA = 1" % ind])
+        if kind == "struct":
+            for body in kids_struct:
+                out.append(["%s0 [+%d]  struct  %s:" % (ind, 2, fresh("is"))] + body)
+                out.append(["%sif true:" % ind, "%s  0 [+2]  struct  %s:" % (ind, fresh("is"))] + ["  " + l for l in body])
+        return out
+
+    texts = []
+    for kind in ("struct", "bits"):
+        for body in items(kind, depth, "  "):
+            texts.append("%s Top:\n" % kind + "\n".join(body) + "\n")
+    return texts
 
 
 def bounds(tier):
@@ -115,6 +160,7 @@ def gen_cases(tier):
         yield {"kind": "base", "label": label, "text": text}
     yield {"kind": "raw"}
     yield {"kind": "catalogue"}
+    yield {"kind": "nesting", "depth": 2 if tier == "quick" else 3}
     yield {"kind": "cli"}
 
 
@@ -318,6 +364,10 @@ def check_case(case):
             'import "imp.emb" as im\nstruct Foo:\n  0 [+1]  UInt  x\n  let v = im.En.AA + 1\n',
         ]
         return run_many(texts + multi, "catalogue", files={"imp.emb": imp})
+    if k == "nesting":
+        texts = nestings(case["depth"])
+        texts += ['[$default byte_order: "LittleEndian"]\n' + t for t in texts]
+        return run_many(texts, "nesting")
     if k == "cli":
         import subprocess
         import sys
